@@ -2841,6 +2841,7 @@ echs_evical_pull(ical_parser_t p[static 1U])
 	struct ical_vevent_s *ve;
 	echs_instruc_t i = {INSVERB_UNK};
 
+again:
 	/* just let _ical_pull do the yakka and we split everything
 	 * into evical vevents and evrruls */
 	if (UNLIKELY(*p == NULL)) {
@@ -2888,6 +2889,12 @@ echs_evical_pull(ical_parser_t p[static 1U])
 		case METH_COUNTER:
 		case METH_DECLINECOUNTER:
 			break;
+		}
+		if (UNLIKELY(i.v == INSVERB_UNK)) {
+			/* nothing in this one for the caller, INSVERB_UNK
+			 * would ask for more data, but we've got more */
+			i = (echs_instruc_t){INSVERB_UNK};
+			goto again;
 		}
 	}
 	return i;
